@@ -292,6 +292,7 @@ def call_closure(ex, st, clos, cargs):
     sub = State()
     sub.pc = list(st.pc)
     sub.notes = st.notes
+    sub.strattrs = st.strattrs
     res = ex.run_fn(target, args, sub)
     out = []
     base = len(st.pc)
@@ -327,7 +328,11 @@ def m_ok_or_else(ex, st, func, args, argtys, dest_ty):
     e = args[0]
     if e.variant == 1:
         return [("ret", ok(e.fields[0]), None)]
-    return through_closure(call_closure(ex, st, args[1], []), err)
+    try:
+        return through_closure(call_closure(ex, st, args[1], []), err)
+    except Unsupported:
+        # error constructors only build the error value; its content is not part of any claim
+        return [("ret", err(Opaque("constructed-error")), None)]
 
 
 @model(r"Result::<.*>::map_err::<.*>$")
@@ -364,6 +369,18 @@ def m_and_then(ex, st, func, args, argtys, dest_ty):
     if e.variant == 0:
         return [("ret", none(), None)]
     return call_closure(ex, st, args[1], [e.fields[0]])
+
+
+@model(r"Result::<.*>::ok$")
+def m_result_ok(ex, st, func, args, argtys, dest_ty):
+    e = args[0]
+    return [("ret", some(e.fields[0]) if e.variant == 0 else none(), None)]
+
+
+@model(r"Result::<.*>::err$")
+def m_result_err(ex, st, func, args, argtys, dest_ty):
+    e = args[0]
+    return [("ret", some(e.fields[0]) if e.variant == 1 else none(), None)]
 
 
 @model(r"Option::<.*>::ok_or$")
@@ -439,29 +456,62 @@ def m_wrapping(ex, st, func, args, argtys, dest_ty):
 def m_pow(ex, st, func, args, argtys, dest_ty):
     ty, name = num_method(func)
     a, e = args
+    lo, hi = ty_range(ty)
     outs = []
-    vals = [e] if is_conc(e) else ex.enumerate_values(st, e, 200)
-    overflow_checks = ex.overflow_checks
-    for ev in vals:
-        cond = None if is_conc(e) else (e == ev)
-        if is_conc(a):
-            r = a ** ev
-        else:
-            r = zint(a)
-            acc = z3.IntVal(1)
-            for _ in range(ev):
-                acc = acc * r
-            r = acc
+
+    def emit(r, cond):
         c = in_range(r, ty)
         if name == "checked_pow":
-            outs.append(("ret", some(r), zand(cond if cond is not None else True, c)))
-            outs.append(("ret", none(), zand(cond if cond is not None else True, znot(c))))
+            outs.append(("ret", some(r), zand(cond, c)))
+            outs.append(("ret", none(), zand(cond, znot(c))))
         else:
-            outs.append(("ret", r, zand(cond if cond is not None else True, c)))
-            if overflow_checks:
-                outs.append(("panic", "attempt to multiply with overflow (pow)", zand(cond if cond is not None else True, znot(c))))
+            outs.append(("ret", r, zand(cond, c)))
+            if ex.overflow_checks:
+                outs.append(("panic", "attempt to multiply with overflow (pow)", zand(cond, znot(c))))
             else:
-                outs.append(("ret", ex.wrap(r, ty), zand(cond if cond is not None else True, znot(c))))
+                outs.append(("ret", ex.wrap(r, ty), zand(cond, znot(c))))
+
+    if is_conc(e):
+        if is_conc(a):
+            emit(a ** e, True)
+        else:
+            acc = z3.IntVal(1)
+            for _ in range(e):
+                acc = acc * zint(a)
+            emit(acc, True)
+        return outs
+    if is_conc(a) and abs(a) >= 2:
+        # concrete base, symbolic exponent: exact for every exponent that can fit, one
+        # overflow outcome for all larger exponents
+        k = 0
+        while abs(a) ** k <= max(hi, -lo):
+            emit(a ** k, e == k)
+            k += 1
+        big = e >= k
+        if name == "checked_pow":
+            outs.append(("ret", none(), big))
+        elif ex.overflow_checks:
+            outs.append(("panic", "attempt to multiply with overflow (pow)", big))
+        else:
+            # wrapping pow (release profile): exact residues up to the type width; an even
+            # base is 0 modulo 2^bits from exponent `bits` on
+            bits = INT_BITS[ty]
+            while k < bits:
+                outs.append(("ret", ex.wrap(a ** k, ty), e == k))
+                k += 1
+            if a % 2 != 0:
+                raise Unsupported("wrapping pow of an odd base with an unbounded exponent")
+            outs.append(("ret", 0, e >= bits))
+        return outs
+    vals = ex.enumerate_values(st, e, 200)
+    for ev in vals:
+        if is_conc(a):
+            emit(a ** ev, e == ev)
+        else:
+            acc = z3.IntVal(1)
+            for _ in range(ev):
+                acc = acc * zint(a)
+            emit(acc, e == ev)
     return outs
 
 
@@ -581,3 +631,261 @@ def m_int_ops(ex, st, func, args, argtys, dest_ty):
 @model(r"core::panicking::|std::rt::begin_panic|core::result::unwrap_failed|core::option::expect_failed|core::option::unwrap_failed")
 def m_panic(ex, st, func, args, argtys, dest_ty):
     return [("panic", "explicit panic: " + func.split("::")[-1], None)]
+
+
+# ------------------------------------------------------------------ abstract strings
+# A SymStr is an arbitrary &str.  Stubs hand out fresh symbolic attributes of it,
+# cached on the object so repeated questions get the same answer, and tied together
+# only by facts that hold for every string (listed next to each stub).
+
+def A(st, s):
+    """attribute dict of an abstract string, kept in the path state"""
+    return st.strattrs.setdefault(s.id, {})
+
+
+def sattr(ex, st, s, name, mk):
+    d = A(st, s)
+    if name not in d:
+        d[name] = mk()
+    return d[name]
+
+
+def s_count(ex, st, s):
+    """number of chars; fact: count >= 0"""
+    if s.chars is not None:
+        return len(s.chars)
+    def mk():
+        v = ex.fresh_int("usize", "count_" + s.id)
+        st.pc.append(v >= 0)
+        st.pc.append(v <= 2 ** 40)
+        return v
+    return sattr(ex, st, s, "count", mk)
+
+
+def s_empty(ex, st, s):
+    c = s_count(ex, st, s)
+    return (c == 0) if is_conc(c) else (c == 0)
+
+
+@model(r"str::<impl str>::is_empty$")
+def m_str_is_empty(ex, st, func, args, argtys, dest_ty):
+    return [("ret", s_empty(ex, st, deref(args[0])), None)]
+
+
+@model(r"str::<impl str>::len$")
+def m_str_len(ex, st, func, args, argtys, dest_ty):
+    s = deref(args[0])
+    if s.chars is not None and all(is_conc(c) for c in s.chars):
+        return [("ret", len("".join(chr(c) for c in s.chars).encode("utf-8")), None)]
+    def mk():
+        v = ex.fresh_int("usize", "len_" + s.id)
+        c = s_count(ex, st, s)
+        st.pc.append(z3.And(v >= c, v <= 4 * zint(c)))   # 1..4 UTF-8 bytes per char
+        return v
+    return [("ret", sattr(ex, st, s, "len", mk), None)]
+
+
+@model(r"str::<impl str>::split_once::<char>$")
+def m_split_once(ex, st, func, args, argtys, dest_ty):
+    s = deref(args[0])
+    if not isinstance(s, SymStr):
+        raise Unsupported("split_once on %r" % (s,))
+    a, b = SymStr(s.id + "L"), SymStr(s.id + "R")
+    # facts: count(a) + 1 + count(b) == count(s)
+    ca, cb, cs = s_count(ex, st, a), s_count(ex, st, b), s_count(ex, st, s)
+    delim = args[1]
+    took = z3.Bool("split_%s_%d" % (s.id, next(ex.fresh)))
+    A(st, s).setdefault("splits", []).append((delim, a.id, b.id, took))
+    return [("ret", some(Struct([a, b])), z3.And(took, zint(ca) + 1 + zint(cb) == zint(cs))), ("ret", none(), z3.Not(took))]
+
+
+@model(r"str::<impl str>::(contains|ends_with|starts_with)::<char>$")
+def m_str_pred(ex, st, func, args, argtys, dest_ty):
+    s = deref(args[0])
+    name = func.rsplit("::", 2)[1].split("::")[0] if False else re.search(r"::(contains|ends_with|starts_with)::", func).group(1)
+    key = "%s_%s" % (name, args[1])
+    def mk():
+        b = z3.Bool("%s_%s_%d" % (name, s.id, next(ex.fresh)))
+        c = s_count(ex, st, s)
+        st.pc.append(z3.Implies(b, zint(c) >= 1))
+        return b
+    b = sattr(ex, st, s, key, mk)
+    return [("ret", True, b), ("ret", False, z3.Not(b))]
+
+
+@model(r"str::<impl str>::parse::<(u8|u16|u32|u64|u128|usize)>$")
+def m_parse_uint(ex, st, func, args, argtys, dest_ty):
+    """FromStr for unsigned ints: Err for the empty string and for non-digits /
+    overflow; Ok(v) implies 1 <= count(s) and v < 10^count(s) (leading zeros and one
+    leading '+' allowed).  Trailing-zero attribute tz (if asked for elsewhere) obeys
+    tz <= count, v % 10^tz == 0, and v == 0 when tz == count."""
+    ty = re.search(r"parse::<(\w+)>", func).group(1)
+    s = deref(args[0])
+    if not isinstance(s, SymStr):
+        raise Unsupported("parse on %r" % (s,))
+    def mk():
+        v = ex.fresh_int(ty, "parsed_" + s.id)
+        ok_flag = z3.Bool("parse_ok_%s_%d" % (s.id, next(ex.fresh)))
+        return (v, ok_flag)
+    v, okf = sattr(ex, st, s, "parse_" + ty, mk)
+    c = s_count(ex, st, s)
+    facts = [in_range(v, ty), zint(c) >= 1]
+    # v < 10^count  (only informative for small counts)
+    pw = z3.IntVal(1)
+    bound = []
+    for k in range(1, 40):
+        pw = pw * 10
+        bound.append(z3.Implies(zint(c) == k, v < z3.IntVal(10 ** k)))
+    facts += bound
+    A(st, s)["parsed_ty"] = ty
+    return [("ret", ok(v), z3.And(okf, *facts)), ("ret", err(Opaque("ParseIntError")), z3.Not(okf))]
+
+
+@model(r"str::<impl str>::parse::<f64>$")
+def m_parse_f64(ex, st, func, args, argtys, dest_ty):
+    """f64::from_str accepts decimal literals and (case-insensitively) inf/infinity/nan
+    with optional sign: any f64 value including NaN and +-inf can come back."""
+    s = deref(args[0])
+    def mk():
+        return (z3.FP("parsedf_%s_%d" % (s.id, next(ex.fresh)), z3.Float64()), z3.Bool("parsef_ok_%s_%d" % (s.id, next(ex.fresh))))
+    v, okf = sattr(ex, st, s, "parse_f64", mk)
+    return [("ret", ok(v), okf), ("ret", err(Opaque("ParseFloatError")), z3.Not(okf))]
+
+
+@model(r"str::<impl str>::chars$")
+def m_chars(ex, st, func, args, argtys, dest_ty):
+    s = deref(args[0])
+    return [("ret", Opaque("chars", {"s": s, "rev": False, "pos": 0}), None)]
+
+
+@model(r"<Chars<'_> as Iterator>::rev$")
+def m_chars_rev(ex, st, func, args, argtys, dest_ty):
+    it = args[0]
+    return [("ret", Opaque("chars", {"s": it.data["s"], "rev": True, "pos": 0}), None)]
+
+
+@model(r"<Chars<'_> as Iterator>::count$")
+def m_chars_count(ex, st, func, args, argtys, dest_ty):
+    it = args[0]
+    return [("ret", s_count(ex, st, it.data["s"]), None)]
+
+
+@model(r"<Rev<Chars<'_>> as Iterator>::take_while::<.*>$")
+def m_take_while(ex, st, func, args, argtys, dest_ty):
+    return [("ret", Opaque("take_while", {"it": args[0], "pred": args[1]}), None)]
+
+
+@model(r"<TakeWhile<Rev<Chars<'_>>, .*> as Iterator>::count$")
+def m_take_while_count(ex, st, func, args, argtys, dest_ty):
+    """Only for the predicate `|c| *c == '0'` (checked by running the closure on '0' and
+    on a symbolic other char): the count of trailing '0' characters, tz, with
+    0 <= tz <= count(s); if the string parses as an unsigned int v then v % 10^tz == 0,
+    (v / 10^tz) % 10 != 0 when tz < count, and v == 0 when tz == count."""
+    tw = args[0]
+    s = tw.data["it"].data["s"]
+    pred = tw.data["pred"]
+    r0 = call_closure(ex, st, pred, [Ref([ord("0")])])
+    other = ex.fresh_int("u32", "ch")
+    st1 = State_with(st, [other != ord("0"), other >= 0, other <= 0x10FFFF])
+    r1 = call_closure(ex, st1, pred, [Ref([other])])
+    def never_true(res, pc):
+        if len(res) != 1 or res[0][0] != "ret":
+            return False
+        v = res[0][1]
+        if is_conc(v):
+            return not v
+        return not ex.feasible(pc, v)
+    if not (len(r0) == 1 and r0[0][1] is True) or not never_true(r1, st1.pc):
+        raise Unsupported("take_while predicate is not `== '0'`")
+    def mk():
+        tz = ex.fresh_int("usize", "tz_" + s.id)
+        c = s_count(ex, st, s)
+        st.pc.append(z3.And(tz >= 0, tz <= zint(c)))
+        return tz
+    tz = sattr(ex, st, s, "tz", mk)
+    # relation with the parsed value, if/when the string is parsed as u128
+    def link():
+        return True
+    d = A(st, s)
+    for ty in ("u128",):
+        if "parse_" + ty not in d:
+            v = ex.fresh_int(ty, "parsed_" + s.id)
+            okf = z3.Bool("parse_ok_%s_%d" % (s.id, next(ex.fresh)))
+            d["parse_" + ty] = (v, okf)
+        v, okf = d["parse_" + ty]
+        c = s_count(ex, st, s)
+        facts = []
+        for k in range(0, 40):
+            p = 10 ** k
+            facts.append(z3.Implies(z3.And(okf, tz == k), z3.And(v % p == 0, z3.Or(tz == zint(c), (v / p) % 10 != 0))))
+        facts.append(z3.Implies(z3.And(okf, tz == zint(c)), v == 0))
+        facts.append(z3.Implies(z3.And(okf, tz >= 40), v == 0))
+        st.pc.append(z3.And(*facts))
+        break
+    return [("ret", tz, None)]
+
+
+def State_with(st, extra):
+    from .mirexec import State
+    s2 = State()
+    s2.pc = list(st.pc) + list(extra)
+    s2.notes = st.notes
+    s2.strattrs = st.strattrs
+    return s2
+
+
+@model(r"<str as (std::ops::)?Index<(std::ops::)?RangeTo<usize>>>::index$|<str as (std::ops::)?Index<(std::ops::)?Range(From)?<usize>>>::index$")
+def m_str_index(ex, st, func, args, argtys, dest_ty):
+    s = deref(args[0])
+    sub = SymStr(s.id + "sub")
+    A(st, s).setdefault("substr", []).append((func, args[1], sub.id))
+    return [("ret", Ref([sub]), None)]
+
+
+@model(r"as ToString>::to_string$|<str as ToOwned>::to_owned$|String::from")
+def m_to_string(ex, st, func, args, argtys, dest_ty):
+    return [("ret", Opaque("String", deref(args[0])), None)]
+
+
+# ------------------------------------------------------------------ floats
+
+@model(r"f64::round$|std::f64::<impl f64>::round$")
+def m_f64_round(ex, st, func, args, argtys, dest_ty):
+    return [("ret", z3.fpRoundToIntegral(z3.RNA(), args[0]), None)]
+
+
+@model(r"<impl f64>::(is_nan|is_finite|is_infinite)$")
+def m_f64_class(ex, st, func, args, argtys, dest_ty):
+    v = args[0]
+    name = func.rsplit("::", 1)[1]
+    r = {"is_nan": z3.fpIsNaN(v), "is_infinite": z3.fpIsInf(v), "is_finite": z3.And(z3.Not(z3.fpIsNaN(v)), z3.Not(z3.fpIsInf(v)))}[name]
+    return [("ret", r, None)]
+
+
+# ------------------------------------------------------------------ formatting (recorded, not rendered)
+
+@model(r"core::fmt::rt::Argument::<'_>::(new_display|new_debug|from_usize)")
+def m_fmt_arg(ex, st, func, args, argtys, dest_ty):
+    return [("ret", Opaque("fmtarg", deref(args[0])), None)]
+
+
+@model(r"Arguments::<'_>::new(_const|_v1)?::<")
+def m_fmt_arguments(ex, st, func, args, argtys, dest_ty):
+    arr = deref(args[1]) if len(args) > 1 else Struct([])
+    return [("ret", Opaque("fmtargs", {"template": args[0], "args": [a.data for a in arr]}), None)]
+
+
+@model(r"std::fmt::Formatter::<'_>::write_fmt$|<std::fmt::Formatter<'_> as std::fmt::Write>::write_fmt$")
+def m_write_fmt(ex, st, func, args, argtys, dest_ty):
+    f = deref(args[0])
+    if not (isinstance(f, Opaque) and f.what == "formatter"):
+        raise Unsupported("write_fmt on %r" % (f,))
+    f.data.append(args[1].data)
+    return [("ret", ok(Struct([])), None)]
+
+
+@model(r"std::fmt::Formatter::<'_>::write_str$")
+def m_write_str(ex, st, func, args, argtys, dest_ty):
+    f = deref(args[0])
+    f.data.append({"template": "write_str", "args": [deref(args[1])]})
+    return [("ret", ok(Struct([])), None)]
